@@ -2695,6 +2695,22 @@ event_remove_timer_nolock_(struct event *ev)
 	return (0);
 }
 
+/* Forget the interval a persistent event remembers from an earlier timed add,
+ * unless its timer is pending.  Holds the base lock: the loop thread reads
+ * ev_io_timeout in event_persist_closure(). */
+void
+event_clear_persist_timeout_(struct event *ev)
+{
+	struct event_base *base = ev->ev_base;
+	if (EVUTIL_FAILURE_CHECK(!base))
+		return;
+	EVBASE_ACQUIRE_LOCK(base, th_base_lock);
+	if (!(ev->ev_flags & EVLIST_TIMEOUT) &&
+	    ev->ev_closure == EV_CLOSURE_EVENT_PERSIST)
+		evutil_timerclear(&ev->ev_io_timeout);
+	EVBASE_RELEASE_LOCK(base, th_base_lock);
+}
+
 int
 event_remove_timer(struct event *ev)
 {
